@@ -92,18 +92,10 @@ Theorem C16_average_buried_fraction_unit : forall (s : state R) dst src0 (srcs :
   ~ In dst (map fst srcs) -> srcs <> [] -> (forall x, In x (map fst srcs) -> 0 <= g_buried (s x) <= 1) ->
   let n := INR (length srcs) in let sc := step s (OClone dst src0) in
   let s' := step (iadd_all sc dst srcs) (ODiv dst n) in 0 <= g_buried (s' dst) <= 1.
-Proof.
-  intros s dst src0 srcs H1 H2 H3 n sc s'.
-  destruct (average_is_mean_over_present s dst src0 srcs H1) as (_ & _ & _ & D & _). unfold s', sc, n. rewrite D.
-  exact (average_in_range (@g_buried R) s dst src0 srcs 0 1 H1 H2 H3).
-Qed.
+Proof. exact average_buried_fraction_unit. Qed.
 Theorem C16_average_desolvation_sign : forall (s : state R) dst src0 (srcs : list (nat * list nat)) lo hi,
   ~ In dst (map fst srcs) -> srcs <> [] -> (forall x, In x (map fst srcs) -> lo <= g_vol (s x) <= hi) ->
   let n := INR (length srcs) in let sc := step s (OClone dst src0) in
   let s' := step (iadd_all sc dst srcs) (ODiv dst n) in lo <= g_vol (s' dst) <= hi.
-Proof.
-  intros s dst src0 srcs lo hi H1 H2 H3 n sc s'.
-  destruct (average_is_mean_over_present s dst src0 srcs H1) as (_ & B & _). unfold s', sc, n. rewrite B.
-  exact (average_in_range (@g_vol R) s dst src0 srcs lo hi H1 H2 H3).
-Qed.
+Proof. exact average_desolvation_range. Qed.
 Print Assumptions C16_average_buried_fraction_unit.
